@@ -53,6 +53,7 @@ func main() {
 		trace     = flag.Bool("trace", false, "trace instructions")
 		list      = flag.Bool("list", false, "list harness functions (H_*) and exit")
 		nospec    = flag.Bool("nospec", false, "disable if-conversion")
+		cross     = flag.Bool("crosscheck", false, "answer every deciding query with both solvers")
 		extra     multiFlag
 		cpuprof   = flag.String("cpuprofile", "", "write a CPU profile")
 	)
@@ -174,18 +175,19 @@ func main() {
 			continue
 		}
 		c := interp.Config{
-			Main:      mainPkg,
-			Harness:   h,
-			Workers:   *workers,
-			Solver:    *solver,
-			Second:    *second,
-			TimeoutMS: *timeoutMS,
-			MaxDepth:  *maxDepth,
-			MaxSteps:  *maxSteps,
-			MaxPaths:  *maxPaths,
-			Trace:     *trace,
-			Witnesses: *witnesses,
-			NoSpec:    *nospec,
+			Main:       mainPkg,
+			Harness:    h,
+			Workers:    *workers,
+			Solver:     *solver,
+			Second:     *second,
+			TimeoutMS:  *timeoutMS,
+			MaxDepth:   *maxDepth,
+			MaxSteps:   *maxSteps,
+			MaxPaths:   *maxPaths,
+			Trace:      *trace,
+			Witnesses:  *witnesses,
+			NoSpec:     *nospec,
+			CrossCheck: *cross,
 		}
 		if *budget > 0 {
 			c.Deadline = time.Now().Add(*budget)
